@@ -53,6 +53,8 @@ class World:
         mk = lambda n, N: M.Link(N, v[f"lam_{n}"], v[f"L_{n}"], v[f"rhomax_{n}"], v[f"rhocrit_{n}"], v[f"vfree_{n}"], v[f"a_{n}"], v[f"beta_{n}"], name=n)
         self.nodes = {n: M.Node(name=n) for n in ("N1", "N2", "N3", "N4")}
         self.links = {"L1": mk("L1", 2), "L2": mk("L2", 1), "L3": mk("L3", 1)}
+        if symtype == "SX":
+            self.links["L3"].name = "L2"  # a distinct link that merely carries the name of an existing one (SX histories only)
         self.origins = {"O1": M.MeteredOnRamp(v["C_O1"], name="O1"), "O2": M.SimplifiedMeteredOnRamp(v["C_O2"], name="O2")}
         self.dests = {"D1": M.Destination(name="D1"), "D2": M.Destination(name="D2"), "D3": M.CongestedDestination(name="D3")}
         self.dest_name = "D1"
